@@ -38,7 +38,7 @@ Lookup(r) ==
           /\ IF q.type \in DOMAIN c1.domains
              THEN /\ pc' = [pc EXCEPT ![r] = "sign"]                    \* hit: sign with what is held
                   /\ dom' = [dom EXCEPT ![r] = c1.domains[q.type]]
-                  /\ UNCHANGED <<fork, req, domreqs, signed, result>>
+                  /\ UNCHANGED <<fork, req, domreqs, insign, signed, result>>
              ELSE FetchDomain(r)                                          \* miss: step 2, lock released
 
 \* step 3: the reply arrives (any time later) and is stored in one critical section
@@ -55,7 +55,7 @@ CNext ==
     \/ \E r \in Rids :
           \/ Lookup(r)
           \/ Store(r)
-          \/ (SignGroup(r, 1) \/ Return(r)) /\ UNCHANGED cache
+          \/ (SignGroupStart(r, 1) \/ SignEnd(r) \/ Return(r)) /\ UNCHANGED cache
 
 CSpec == CInit /\ [][CNext]_cvars
 
